@@ -54,6 +54,13 @@ theorem wrapper_shapes :
     Gen.asyncContextDelegates = true := by
   decide
 
+/-- the call of onerror is guarded by `onerror is not None` (not by its truth value) -/
+theorem onerror_test_is_not_none : Gen.onerrorTest = .isNotNone := by decide
+
+/-- catch() itself is inert: it validates nothing and looks nothing up (a level name is resolved when a
+    record is produced, so it may be registered after the decorator was applied) -/
+theorem catch_construction_inert : Gen.constructionInert = true := by decide
+
 /-! ## `Catcher.__exit__` -/
 
 /-- no exception: `__exit__` does nothing -/
@@ -119,6 +126,31 @@ theorem exit_matching_without_handler (env : Env) (cfg : Cfg) (d : Nat) (e : Exc
   unfold caughtResult afterLog logErr logEvents G.push
   simp only [hl, ho, if_true, List.append_nil]
   split <;> rename_i h5 <;> simp [h5]
+
+/-- the truth value of the onerror callable is irrelevant: a FALSY callable (error registry with
+    `__len__() == 0`, object with `__bool__() is False`) is called exactly like any other -/
+theorem onerror_truth_value_irrelevant (env : Env) (cfg : Cfg) (b : Bool) (d : Nat) (e : Option Exc) (g : G) :
+    exit env { cfg with onerrorFalsy := b } d e g = exit env cfg d e g := by
+  cases e with
+  | none => rw [exit_none, exit_none]
+  | some x =>
+    rcases caught_or_uncaught cfg g x with h | h
+    · have h' : Caught { cfg with onerrorFalsy := b } g x := h
+      rw [exit_caught env _ d x g h', exit_caught env cfg d x g h]
+      rfl
+    · have h' : Uncaught { cfg with onerrorFalsy := b } g x := h
+      rw [exit_uncaught env _ d x g h', exit_uncaught env cfg d x g h]
+
+/-- refuting witness for the shape `if onerror:` (seeded regression): under a truthiness test a falsy
+    callable would never be called, under the actual `is not None` test it is -/
+theorem truthiness_test_would_skip_falsy_onerror (cfg : Cfg) (f : Exc → G → Option Exc × G)
+    (ho : cfg.onerror = some f) (hf : cfg.onerrorFalsy = true) :
+    onerrorToCall .truthy cfg = none ∧ onerrorToCall .isNotNone cfg = some f ∧
+    onerrorToCall Gen.onerrorTest cfg = some f := by
+  refine ⟨?_, ?_, ?_⟩
+  · simp [onerrorToCall, ho, hf]
+  · simp [onerrorToCall, ho]
+  · rw [onerrorToCall_generated, ho]
 
 /-- while the flag is set every nested `__exit__` propagates and touches nothing; consequently the
     budget for nested catching is irrelevant: the real (recursive) `__exit__` equals the one in which
